@@ -123,8 +123,15 @@ def check_method(ix, rep, cls, f, label, rule='R-CACHE'):
                 if any(ast.unparse(d) == 'property' or ast.unparse(d).endswith('.setter') for d in w.node.decorator_list):
                     # accessor of a property: runs as part of `self.<property> = v` in the methods judged here
                     continue
+                # a definition that this class overrides is reached only through the override (which is judged with everything it calls)
+                if ix.resolve_method(c, wname) is not w and ix.resolve_method(cls, wname) is not w:
+                    continue
                 ef = E.method_effects(w)
-                changed = sorted(d for d in deps if d in ef.writes)
+                try:
+                    tef = E.transitive_effects(ix, c, wname) if ix.resolve_method(c, wname) is w else ef
+                except Exception:
+                    tef = ef
+                changed = sorted(d for d in deps if d in ef.writes or d in tef.writes)
                 if not changed:
                     continue
                 n += 1
@@ -132,7 +139,7 @@ def check_method(ix, rep, cls, f, label, rule='R-CACHE'):
                 def _clears(fn_node):
                     return any((isinstance(x, ast.Call) and isinstance(x.func, ast.Attribute) and x.func.attr == 'clear' and ast.unparse(x.func.value) == 'self.%s' % attr)
                                or (isinstance(x, ast.Assign) and any(ast.unparse(t) == 'self.%s' % attr for t in x.targets)) for x in ast.walk(fn_node))
-                clears = attr in ef.writes or _clears(w.node)
+                clears = attr in ef.writes or attr in tef.writes or _clears(w.node) or any(E.base_attr(l_) == attr for l_ in getattr(tef, 'mutations', {}))
                 if not clears:
                     # the store goes through a property whose setter renews the memo
                     for d in changed:
@@ -148,6 +155,57 @@ def check_method(ix, rep, cls, f, label, rule='R-CACHE'):
                     rep.fail(rule, w.module.rel, w.qual, slot, '%s() answers from the memo self.%s[%s]; what it stores there is computed from self.%s, which %s() changes without clearing '
                              'the memo: after %s() the old answers are still returned (the key does not contain the changed setting)'
                              % (f.node.name, attr, key, changed[0], wname, wname), w.node.lineno)
+    # settings kept on another object: the computation reads self.ast.X, and X is assigned from outside this hierarchy (the specification object's
+    # `unit` setter writes self.ast.unit) -- no method of this class can renew the memo then, so X has to be part of the key
+    ast_reads = set()
+    todo, seen_m = [f], set()
+    while todo:
+        g = todo.pop()
+        if id(g) in seen_m:
+            continue
+        seen_m.add(id(g))
+        for x in ast.walk(g.node):
+            if isinstance(x, ast.Attribute) and isinstance(x.value, ast.Attribute) and x.value.attr == 'ast' and isinstance(x.value.value, ast.Name) and x.value.value.id == 'self' \
+                    and isinstance(x.ctx, ast.Load):
+                ast_reads.add(x.attr)
+            if isinstance(x, ast.Call) and isinstance(x.func, ast.Attribute):
+                recv = x.func.value
+                if (isinstance(recv, ast.Name) and recv.id == 'self') or (isinstance(recv, ast.Call) and isinstance(recv.func, ast.Name) and recv.func.id == 'super'):
+                    owner = g.owner if g.owner is not None else cls
+                    cands = []
+                    if isinstance(recv, ast.Name):
+                        h = ix.resolve_method(cls, x.func.attr)
+                        if h is not None:
+                            cands.append(h)
+                    else:
+                        mro = [k_ for k_ in ix.mro(cls) if isinstance(k_, ClassInfo)]
+                        if owner in mro:
+                            for k_ in mro[mro.index(owner) + 1:]:
+                                if x.func.attr in k_.methods:
+                                    cands.append(k_.methods[x.func.attr])
+                                    break
+                    todo.extend(cands)
+    if ast_reads:
+        ext = {}
+        for m_ in ix.modules.values():
+            if not m_.rel.startswith('rtamt/spec/') or ix.unimportable(m_):
+                continue
+            for c_ in m_.classes.values():
+                for w in c_.methods.values():
+                    if w.node.name == '__init__':
+                        continue
+                    for x in ast.walk(w.node):
+                        tg = x.targets if isinstance(x, ast.Assign) else ([x.target] if isinstance(x, ast.AugAssign) else [])
+                        for t in tg:
+                            if isinstance(t, ast.Attribute) and isinstance(t.value, ast.Attribute) and t.value.attr == 'ast' and t.attr in ast_reads:
+                                ext.setdefault(t.attr, w)
+        for a_, w in sorted(ext.items()):
+            if ('ast.%s' % a_) in keytext:
+                continue
+            n += 1
+            rep.fail(rule, f.module.rel, f.qual, '%s:self.%s<-ast.%s' % (label, attr, a_), '%s() answers from the memo self.%s[%s]; what it stores there is computed from self.ast.%s, which %s '
+                     'assigns on the ast from outside this class: nothing renews the memo, after the setting has changed the old answers are returned'
+                     % (f.node.name, attr, key, a_, w.qual), hitnode.lineno)
     if n == 0:
         rep.ok(rule, f.module.rel, f.qual, '%s:self.%s' % (label, attr), 'the memoised computation reads no attribute that any method changes', f.node.lineno)
         n = 1
@@ -273,4 +331,21 @@ def check_offline_memo_renewed(ix, rep, mon, rule='R-CACHE'):
                     rep.fail(rule, f.module.rel, f.qual, slot, '%s() answers from %s when the node is in it, and %s -- the evaluate() of the %s monitor -- does not empty that table before it '
                              'walks the specification: a second evaluate() on the same specification object returns, for those nodes, the values computed from the first data set'
                              % (f.node.name, cont, ev.qual, mon.kind), ifnode.lineno)
+    return n
+
+
+def check_converters(ix, rep, label='converter'):
+    """every definition of time_unit_transformer a monitor can reach (the base classes' and any override in a concrete interpreter): R-CACHE"""
+    from sa import model as M
+    n = 0
+    seen = set()
+    for mon in M.monitors(ix):
+        for k in ix.mro(mon.cls):
+            if not isinstance(k, ClassInfo):
+                continue
+            f = k.methods.get('time_unit_transformer')
+            if f is None or id(f) in seen:
+                continue
+            seen.add(id(f))
+            n += check_method(ix, rep, mon.cls, f, label)
     return n
